@@ -156,6 +156,11 @@ pub fn build_matrix_w<Ty: EdgeType, Ix: petgraph::graph::IndexType, W: Copy>(a: 
         if r.chance(20) && !dummies.is_empty() { let d = dummies[r.below(dummies.len())]; g.update_edge(ix[s], d, cw(77)); }
         g.update_edge(ix[s], ix[t], cw(w));
     }
+    // a node that is removed may carry a self-loop and edges from and to live nodes: remove_node has to clear them all
+    for &d in &dummies {
+        if r.chance(40) { g.update_edge(d, d, cw(78)); }
+        if r.chance(30) && a.n > 0 { let x = ix[r.below(a.n)]; g.update_edge(d, x, cw(79)); }
+    }
     for d in dummies { g.remove_node(d); }
     g
 }
